@@ -587,7 +587,8 @@ def run(tier, seed):
             'gen_op_return_at_or_after_activation', 'db_spends_with_2plus_candidates',
             'split_lookup_job2_saw_row_of_reused_tx_number', 'split_lookup_answers']
     for k in need:
-        if res.stats.get(k, 0) == 0:
+        # (a run that was cut short by what it found has not covered everything, and that is no harness fault)
+        if res.stats.get(k, 0) == 0 and not res.violations and not res.disagreements and not common.out_of_time():
             res.harness_errors.append(f'generator never reached {k}')
     return res
 
